@@ -1040,6 +1040,13 @@ def _decorate_with_invariants(func: CallableT, is_init: bool) -> CallableT:
                 _IN_PROGRESS.set(in_progress)
 
             id_instance = id(instance)
+            if id_instance in in_progress:
+                # A constructor (or a public method) of this very instance is already running, *e.g.*,
+                # this is ``super().__init__(...)`` called from the constructor of a sub-class.
+                # The instance is not completely constructed yet, so the invariants must not be checked here,
+                # and the mark has to be kept for the outermost call which will check them.
+                return func(*args, **kwargs)
+
             in_progress.add(id_instance)
 
             # ExitStack is not used here due to performance.
